@@ -45,9 +45,32 @@ def parts(s):
             v = getattr(s, k, None)
             p['transfer/' + k] = digest(None if v is None else np.asarray(v))
     p['rng/state'] = digest(s.rng)
+    # which objects draw from the sampler's generator: one shared stream in memory, and after a resume too
+    p['rng/sharing'] = digest(rng_sharing(s))
     for i, b in enumerate(s.bounds):
         p['bound/%d' % i] = bound_digest(b)
     return p
+
+
+def rng_sharing(s):
+    """[(path, object's generator IS the sampler's generator)] for every nautilus object below s.bounds."""
+    out = []
+
+    def walk(o, path, depth=0):
+        if depth > 6:
+            return
+        if hasattr(o, '__dict__') and type(o).__module__.startswith('nautilus'):
+            if 'rng' in vars(o):
+                out.append((path, vars(o)['rng'] is s.rng))
+            for k in sorted(vars(o)):
+                if k != 'rng':
+                    walk(vars(o)[k], path + '.' + k, depth + 1)
+        elif isinstance(o, list):
+            for i, x in enumerate(o):
+                walk(x, '%s[%d]' % (path, i), depth + 1)
+    for i, b in enumerate(s.bounds):
+        walk(b, 'bounds[%d]' % i)
+    return [list(x) for x in out]
 
 
 def diff(a, b):
